@@ -117,10 +117,12 @@ class SpecGen:
     def const(self, allow_container=True):
         r = self.rng
         x = r.random()
+        braces = self.cfg.get("tmpl_in_container") and r.random() < 0.4
         if allow_container and x < 0.1:
-            return [r.choice([0, 1, "a"]) for _ in range(r.randint(0, 2))]
+            # (a literal container may hold text that LOOKS like a template: as a default it is a value, not a template)
+            return [r.choice([0, 1, "a"]) for _ in range(r.randint(0, 2))] + (["x{NX9}"] if braces else [])
         if allow_container and x < 0.15:
-            return {"X": r.choice(U.SCALARS)}
+            return {"X": r.choice(U.SCALARS), **({"Y": "{NX9}/y"} if braces else {})}
         return r.choice(U.SCALARS)
 
     def leaf(self):
@@ -438,7 +440,9 @@ class SpecGen:
             # (a datasetclass instance prints as Name({...}): braces again)
             return False
         if k == "val":
-            return not isinstance(n["v"], dict)
+            return not isinstance(n["v"], dict) and "{" not in repr(n["v"])
+        if k == "opt" and "{" in repr((n.get("default") or {}).get("v")):
+            return False  # (brace text in a literal default: the same re-resolution hazard)
         if k == "opt" and (n["key"] in U.WHOLE_KEYS or isinstance((n.get("default") or {}).get("v"), dict)):
             # hazard: the string form of a dictionary contains braces, which confectioner's resolve
             # re-interprets as a template reference (a C09 matter, not claimed here)
